@@ -331,10 +331,18 @@ def one_case(ck, rng, coq_in, length):
             else:
                 ctx["ops"].append(["disconnect", hi])
                 n0 = len(b.events)
+                app = b.client_app(k)
+                able = (app is not None and h.is_active and b.clients[k].operating_state.name == "ON" and app.operating_state.name == "RUNNING"
+                        and srv_on and running and not b.blocked and h.connection_id in conns_before and getattr(h, "client", app) is app)
                 h.disconnect()
                 ck.count("op:disconnect:own")
                 if any(e[2].get("arrived") == "disconnect" for e in b.events[n0:]) and h.connection_id not in db.connections:
                     closed.add(h.connection_id)
+                if able and h.connection_id in db.connections:
+                    # the client closed a connection of its own over an open path to a running server: the server must not keep serving it
+                    violation("closed-connection-still-open-on-server", "the client closed connection %s (client and server on and running, path open; disconnect arrived: %s) "
+                              "but the server still lists it, so queries quoting it would still run"
+                              % (h.connection_id, any(e[2].get("arrived") == "disconnect" for e in b.events[n0:])))
         elif x < 0.6:
             k = rng.randrange(2)
             ctx["ops"].append(["client-uninstall-reinstall", k])
